@@ -70,22 +70,48 @@ def resume_all(ctx: Ctx) -> None:
     fl = flow_of(repo, f)
     pipe_names = {s.name for ss in fl.sites.values() for s in ss if s.value is not None and "pipeline" in subscript_keys(s.value)}
 
-    def succ_derived(e: ast.AST, at: int, depth: int = 3) -> bool:
-        """expression ranges over all successors of the node under test"""
+    def succ_derived(e: ast.AST, at: int, depth: int = 3, _f=None, _fl=None, _name=None) -> bool:
+        """expression ranges over all successors of the node under test (possibly computed by
+        a private helper that is given the node's name)"""
+        F, FL, NAME = _f or f, _fl or fl, _name or f.params[0]
         for c in ast.walk(e):
-            if isinstance(c, ast.Call) and isinstance(c.func, ast.Attribute) and c.func.attr == "successors" and len(c.args) == 1 and isinstance(c.args[0], ast.Name) and c.args[0].id == f.params[0]:
+            if isinstance(c, ast.Call) and isinstance(c.func, ast.Attribute) and c.func.attr == "successors" and len(c.args) == 1 and isinstance(c.args[0], ast.Name) and c.args[0].id == NAME:
                 return not any(isinstance(x, ast.Subscript) and isinstance(x.slice, ast.Slice) for x in ast.walk(e))
         if depth > 0:
             for nm in [x for x in ast.walk(e) if isinstance(x, ast.Name)]:
-                for s in fl.rdefs(nm.id, at):
+                for s in FL.rdefs(nm.id, at):
                     if s.kind == "assign" and s.value is not None and not isinstance(s.value, ast.Call) or (s.kind == "assign" and isinstance(s.value, ast.Call) and isinstance(s.value.func, ast.Name) and s.value.func.id in ("list", "tuple")):
                         v = s.value
                         # filters may only drop outputs without a target
                         if isinstance(v, (ast.ListComp, ast.GeneratorExp)):
                             if not all(("is not None" in unparse(c_)) for g in v.generators for c_ in g.ifs):
                                 continue
-                        if succ_derived(v, s.node, depth - 1):
+                        if succ_derived(v, s.node, depth - 1, F, FL, NAME):
                             return True
+                    elif s.kind == "assign" and isinstance(s.value, ast.Call):
+                        # a private helper: every return of it must range over the successors of
+                        # the parameter that receives the node's name
+                        for t in repo.resolve_call(s.value, F, F.module):
+                            if t.kind == "def" and t.ref.is_func and t.ref.module is F.module and t.ref is not F:
+                                h = t.ref
+                                pos = [i for i, a in enumerate(s.value.args) if isinstance(a, ast.Name) and a.id == NAME]
+                                if not pos or pos[0] >= len(h.positional_params):
+                                    continue
+                                hname = h.positional_params[pos[0]]
+                                hcfg_, hfl_ = cfg_of(h), flow_of(repo, h)
+                                rets_ = [r for r in hcfg_.returns() if r.stmt.value is not None]
+                                if rets_ and all(
+                                    succ_derived(r.stmt.value, r.id, depth - 1, h, hfl_, hname)
+                                    and all(
+                                        "is not None" in unparse(c_)
+                                        for x in ast.walk(r.stmt.value)
+                                        if isinstance(x, (ast.ListComp, ast.GeneratorExp))
+                                        for g in x.generators
+                                        for c_ in g.ifs
+                                    )
+                                    for r in rets_
+                                ):
+                                    return True
         return False
 
     # ---- the for-all shape ------------------------------------------------------------
@@ -102,7 +128,7 @@ def resume_all(ctx: Ctx) -> None:
             if is_falsy_return(r):
                 continue
             facts = facts_at(cfg, r.id)
-            if any(pol and isinstance(t, ast.Compare) and isinstance(t.ops[0], ast.Is) and isinstance(t.left, ast.Name) and t.left.id in pipe_names for t, pol in facts):
+            if any(pol and isinstance(t, ast.Compare) and isinstance(t.ops[0], ast.Is) and ((isinstance(t.left, ast.Name) and t.left.id in pipe_names) or (not isinstance(t.left, ast.Name) and "pipeline" in subscript_keys(t.left))) for t, pol in facts):
                 ctx.ob(f, r.stmt, True, "truthy return for a node without pipeline (nothing to compute)", sel="all:return-no-pipeline", nontrivial=False)
                 continue
             inside = cfg.in_loop(r.id, S.id)
@@ -121,7 +147,7 @@ def resume_all(ctx: Ctx) -> None:
             if is_falsy_return(r):
                 continue
             facts = facts_at(cfg, r.id)
-            if any(pol and isinstance(t, ast.Compare) and isinstance(t.ops[0], ast.Is) and isinstance(t.left, ast.Name) and t.left.id in pipe_names for t, pol in facts):
+            if any(pol and isinstance(t, ast.Compare) and isinstance(t.ops[0], ast.Is) and ((isinstance(t.left, ast.Name) and t.left.id in pipe_names) or (not isinstance(t.left, ast.Name) and "pipeline" in subscript_keys(t.left))) for t, pol in facts):
                 continue
             v = r.stmt.value
             if isinstance(v, ast.Constant):
